@@ -115,6 +115,8 @@ def run(scn):
         key = '%s|%s|%s' % (clause, facts.get('opkind', ''), facts.get('what', ''))
         viol.append({'clause': clause, 'key': key, 'facts': facts, 'message': msg})
     hist = {'ops': scn['ops']}
+    if scn.get('listing_seed') is not None:
+        hist['listing_seed'] = scn['listing_seed']
     recs = hs.run_history(hist)
     ops = scn['ops']
     shape = []
@@ -128,6 +130,10 @@ def run(scn):
             V('C12.1-fresh-instance', 'operation %d (%s %s) on the long-lived objects differs from the same operation on fresh objects: %s' % (
                 i, base['op'], desc, hs.diff_obs(r['obs'], r['fresh_obs'])), opkind=base['op'], what=_difftag(r['obs'], r['fresh_obs']),
               after_failures=earlier_failed, position=i)
+        if r.get('pristine') and r['pristine'][0] != r['pristine'][1]:
+            V('C12.5-after-faults', 'operation %d (compile with rebuild over real readers/searcher/writer, no fault in this call) differs from the same call by fresh objects over a tree that never saw a fault or an earlier call: %s' % (
+                i, hs.diff_obs(r['pristine'][0], r['pristine'][1])), opkind='fsc', what=_difftag(r['pristine'][0], r['pristine'][1]),
+              faults_before=sum(recs[j].get('faults_fired', 0) for j in range(i)))
         for m, (joint, alone) in sorted(r.get('solo', {}).items()):
             if joint != alone:
                 V('C12.4-context', 'operation %d: the text written for %s by compile(%s) differs from the text written for it by compile(%s) on fresh objects over the same sources with the same options' % (
@@ -162,10 +168,17 @@ def run(scn):
     import hashlib
     fp = hashlib.sha256(json.dumps([[r['long'], r['fresh']] for r in recs]).encode()).hexdigest()[:32]
     fph = hashlib.sha256(json.dumps([[o['op'], o.get('bad'), o.get('of')] for o in ops] + shape).encode()).hexdigest()[:32]
+    fired = {'failing-operation': sum(1 for r in recs if r['failed'])} if any(r['failed'] for r in recs) else {}
+    nio = sum(r.get('faults_fired', 0) for r in recs)
+    if nio:
+        fired['io-fault-during-fs-compile'] = nio
     out = {'violations': viol, 'sig': sig, 'nontrivial': True, 'events': len(recs) * (2 + 2 * nchild), 'sim_s': 0,
-           'fired': {'failing-operation': sum(1 for r in recs if r['failed'])} if any(r['failed'] for r in recs) else {},
+           'fired': fired,
            'probes': {'histories': 1, 'child-runs': nchild, 'ops': len(recs), 'ops-after-a-failure': sum(1 for i in range(len(recs)) if any(recs[j]['failed'] for j in range(i))),
-                      'modules-also-compiled-alone': sum(len(r.get('solo', {})) for r in recs)},
+                      'modules-also-compiled-alone': sum(len(r.get('solo', {})) for r in recs),
+                      'fs-history': 1 if any(r['kind'] == 'fsc' for r in recs) else 0,
+                      'fs-call-clean-after-faulted-call': sum(1 for i, r in enumerate(recs) if r['kind'] == 'fsc' and not r.get('faulted') and any(recs[j].get('faults_fired') for j in range(i))),
+                      'fs-call-compared-with-pristine-tree': sum(1 for r in recs if r.get('pristine'))},
            'fp': fp, 'fph': fph, 'comps': {'operations(long-lived)': len(recs), 'operations(fresh)': len(recs), 'operations(child interpreters)': len(recs) * nchild}, 'shape': shape}
     if herr:
         out['harness_error'] = herr
@@ -272,7 +285,21 @@ def sweep(tier):
     return out
 
 
+def generate_fs(rng, tier):
+    """a history of compile() calls on one compiler with real readers / searcher / borrowers / writer over the
+    interposed filesystem, some under I/O faults, with source files changing in between; parse operations on the
+    same parser object are mixed in"""
+    from verif.engines import fs_history
+    ops = fs_history.gen_history(rng, tier)
+    if rng.random() < 0.4:
+        pos = rng.randrange(len(ops))
+        ops.insert(pos, {'op': 'parse', 'dialect': 'smiV1Relaxed', 'bad': rng.choice(sorted(hs.BAD_TEXTS))})
+    return {'ops': ops, 'child_hash_seeds': sorted(rng.sample(PALETTE, rng.choice([0, 1, 1]))), 'child_fresh': False, 'listing_seed': rng.randrange(1 << 30)}
+
+
 def generate(rng, tier):
+    if rng.random() < 0.3:
+        return generate_fs(rng, tier)
     ops = []
     n = rng.choice([3, 4, 5, 6, 8, 10])
     nfiles = 9
@@ -337,6 +364,19 @@ def shrink(scn):
                     o['of'] -= 1
         if ok and all(o['op'] not in ('repeat', 'index') or o['of'] < j for j, o in enumerate(s['ops'])):
             yield s
+    fsc = [i for i, o in enumerate(ops) if o['op'] == 'fsc']
+    if fsc:
+        from verif.engines import fs_history
+        for i in fsc:
+            for o2 in fs_history.shrink_op(ops[i]):
+                s = copy.deepcopy(scn)
+                s['ops'][i] = o2
+                yield s
+        for site2 in fs_history.shrink_site(ops[fsc[0]]['site']):
+            s = copy.deepcopy(scn)
+            for i in fsc:
+                s['ops'][i]['site'] = copy.deepcopy(site2)
+            yield s
     for i, o in enumerate(ops):
         if o['op'] == 'compile':
             for m in sorted(o['modules']):
@@ -381,4 +421,6 @@ def describe(scn, out):
     for o in d['ops']:
         if o['op'] == 'compile':
             o['modules'] = {n: {k: v for k, v in sp.items() if k in ('imports', 'variant', 'fakeidx', 'smiv1', 'identity', 'revisions', 'enumtc', 'enumuse')} for n, sp in o.get('modules', {}).items()}
+        if o['op'] == 'fsc':
+            o['site'] = dict(o['site'], modules={n: {k: v for k, v in sp.items() if k in ('imports', 'variant')} for n, sp in o['site']['modules'].items()})
     return {'history': d, 'shape': out.get('shape')}
